@@ -253,6 +253,13 @@ pub fn run(thorough: bool, seed: u64, driver: &str, rep: &mut Report) {
         if ti % 5 == 0 {
             t.len = Some(gen_len(&mut rng, LenKind::Dyadic));
         }
+        // taxa whose names concatenate ambiguously (a + bc = ab + c), and labels with characters that are markup elsewhere
+        if ti % 4 == 2 {
+            rename_leaves_concat(&mut rng, &mut t);
+            rep.count("trees_with_concatenation_ambiguous_taxa");
+        } else if ti % 4 == 3 && spice_names(&mut rng, &mut t, 30) > 0 {
+            rep.count("trees_with_markup_like_labels");
+        }
         let text = t.newick();
         let file = tmp(&dir, &mut k, &text);
         let Ok(lib) = Tree::from_newick(&text) else { continue };
